@@ -188,6 +188,21 @@ func genGsm7(g *genCtx) {
 			}
 			emit(Case{"k": "septets", "s": B(s)})
 		}
+		// septet strings whose length is a multiple of 8 (and next to it) ending in CR, '@', ESC: nothing is padding
+		// in the unpacked form, and a dangling ESC is refused, not a crash
+		for _, L := range []int{1, 2, 7, 8, 9, 15, 16, 17, 24, 160} {
+			for _, last := range []byte{0x0d, 0x00, 0x1b, 0x41} {
+				for _, prev := range []byte{0x31, 0x40, 0x0d, 0x1b} {
+					sq := randBytesFrom(r, L, []byte{0x31, 0x41, 0x61, 0x20})
+					sq[L-1] = last
+					if L > 1 {
+						sq[L-2] = prev
+					}
+					emit(Case{"k": "septets", "s": B(sq)})
+					emit(Case{"k": "text", "text": scalarsOfSeptets(sq)})
+				}
+			}
+		}
 		for a := 0; a < 256; a++ {
 			emit(Case{"k": "pairrow", "a": a})
 		}
@@ -242,6 +257,17 @@ var (
 	reusedEncU, reusedEncP = gsm7.GSM7(false).NewEncoder(), gsm7.GSM7(true).NewEncoder()
 	reusedDecU, reusedDecP = gsm7.GSM7(false).NewDecoder(), gsm7.GSM7(true).NewDecoder()
 )
+
+// scalarsOfSeptets renders a septet string as the text it denotes when every septet is a default-alphabet character
+// (used to derive text cases from septet cases; undefined pairs simply give a text that is refused)
+func scalarsOfSeptets(sq []byte) []int {
+	var d []byte
+	var err error
+	if guard(func() { d, err = gsm7.Decode(sq) }) || err != nil {
+		return scalars("x")
+	}
+	return scalars(string(d))
+}
 
 func runGsm7(c Case, tr *Tracer) {
 	if k := caseInt(c, "pre"); k > 0 {
@@ -326,8 +352,14 @@ func runGsm7(c Case, tr *Tracer) {
 		tr.emit(Ev{"ev": "EncPacked", "text": sc, "out": B(out), "err": err2 != nil, "site": "GSM7(true).Encoder.reused"})
 	case "septets":
 		s := caseBytes(c, "s")
-		dec, err := gsm7.Decode(s)
-		tr.emit(Ev{"ev": "Dec", "s": B(s), "out": scalars(string(dec)), "err": err != nil, "site": "Decode"})
+		var dec []byte
+		var err error
+		if guard(func() { dec, err = gsm7.Decode(s) }) {
+			// a panic is neither the text nor a refusal
+			tr.emit(Ev{"ev": "Dec", "s": B(s), "out": []int{-1}, "err": false, "site": "Decode.panic"})
+		} else {
+			tr.emit(Ev{"ev": "Dec", "s": B(s), "out": scalars(string(dec)), "err": err != nil, "site": "Decode"})
+		}
 		dec, _, err = transform.Bytes(gsm7.GSM7(false).NewDecoder(), s)
 		if err != nil {
 			dec = nil
